@@ -255,7 +255,14 @@ fn gen_dims(rng: &mut Rng, cfg: &ArrayCfg) -> (usize, usize) {
 fn gen_mut_op(rng: &mut Rng, fam: usize, m: &Model, cfg: &ArrayCfg) -> MutOp {
     let (c, r) = m.size();
     match fam {
-        F_WRITE => match rng.below(5) {
+        F_WRITE => match rng.below(7) {
+            5 => {
+                // unchecked accessors: in-range coordinates only (anything else is the caller's UB)
+                if c == 0 { MutOp::CellsMutSet { i: 0 } } else { MutOp::UncheckedSet { c: rng.below(c), r: rng.below(r) } }
+            }
+            6 => {
+                if c == 0 { MutOp::CellsMutSet { i: 0 } } else { MutOp::UncheckedRowSet { r: rng.below(r), c: gen_index(rng, c, false, cfg) } }
+            }
             0 => {
                 let (c, r) = gen_coord(rng, m, cfg);
                 MutOp::SetCoord { c, r }
@@ -351,7 +358,7 @@ fn fault_kinds_for(op: &Op, flavour: Flavour) -> Vec<usize> {
                     v.push(K_CMP)
                 }
             }
-            MutOp::SetCoord { .. } | MutOp::SetRowCol { .. } | MutOp::RowsMutSet { .. } | MutOp::ColMutSet { .. } | MutOp::CellsMutSet { .. } => {
+            MutOp::SetCoord { .. } | MutOp::SetRowCol { .. } | MutOp::RowsMutSet { .. } | MutOp::ColMutSet { .. } | MutOp::CellsMutSet { .. } | MutOp::UncheckedSet { .. } | MutOp::UncheckedRowSet { .. } => {
                 if owning {
                     v.push(K_DROP)
                 }
